@@ -174,7 +174,7 @@ def run_family(name, gen_cmd, real_bin, model_bin, key, extra_model_args="", sec
     os.makedirs(d, exist_ok=True)
     rc, out, _ = sh(gen_cmd(d), timeout=1200)
     if rc: raise Broken(f"case generation failed for {name}: {out[-1500:]}")
-    rc1, out1, t1 = sh(f"{real_bin} {d}/cases > {d}/real.out 2> {d}/real.err", timeout=3000)
+    rc1, out1, t1 = sh(f"timeout 600 {real_bin} {d}/cases > {d}/real.out 2> {d}/real.err", timeout=700)
     rc2, out2, t2 = sh(f"{model_bin} {d}/cases {extra_model_args} > {d}/model.out 2> {d}/model.err", timeout=3000)
     if second_model_on_real:
         rc3, out3, t3 = sh(f"{model_bin} {d}/cases --tables {d}/real.out > {d}/model_rt.out 2> {d}/model_rt.err", timeout=3000)
